@@ -14,7 +14,7 @@ from fractions import Fraction
 
 from common import CORPUS_DIR, call, rat, unrat
 
-RULE = ("four case kinds. poly: centre polylines of 2..8 vertices whose steps are Pythagorean directions scaled by k/16 (segment lengths "
+RULE = ("case kinds poly, polyfloat, poly3, merge, net, lanhist (lanelet histories: queries, vertex setters, failing setter, translation, copies, then the observation) and mergechain (all_lanelets_by_merging_* on geometrically consistent trees / rings); every lanelet is built with randomly drawn optional attributes (DIMENSIONS), networks through eight entry points, route queries before and after link edits, max_length as float / int / numpy scalars / inf / keyword / default. Original four kinds:  poly: centre polylines of 2..8 vertices whose steps are Pythagorean directions scaled by k/16 (segment lengths "
         "and all numpy arithmetic exact), arbitrary grid right/left boundaries (30% of them repeat a vertex two or three times in a row: pivot of a sharp corner), arc lengths 0, full length, every vertex, dyadic "
         "fractions of every segment, random interior, out of range; plus polylines with a repeated vertex (NaN branch, correspondence "
         "only). polyfloat: arbitrary double coordinates (oracle with conditioning-aware tolerance only). merge: two lanelets linked "
@@ -35,6 +35,17 @@ ASSUMPTIONS = [
     "replayed from corpus/C20/net_witness_*.json); the oracle therefore checks neither, the correspondence compares order and "
     "multiplicity exactly",
     "theorems are stated for 2-D points; 3-D centre lines (kind poly3) are covered by the correspondence of `cum` and the oracle only",
+    "DIMENSIONS lists every constructor parameter, settable attribute and public method of Lanelet and LaneletNetwork with one decision "
+    "each (varied / irrelevant / outside); check_dimensions() compares it with the real signatures on every run (exit 2 on a new one)",
+    "histories: a lanelet whose vertex arrays are edited IN PLACE after distance was read (the arrays are handed out by reference; no "
+    "setter runs) is outside the quantifier; in-place edits before the first query are generated. lanelet_id re-assigned after a "
+    "network was assembled is outside (the network's id table is C09/C10's subject)",
+    "inner_distance and polygon staleness after the vertex setters are not judged here (the property speaks about the centre-line "
+    "distance): a stale inner_distance is excluded from the correspondence and counted in excluded_ambiguous",
+    "all_lanelets_by_merging_*_from_lanelet: when int(str(id1) + str(id2)) of an intermediate merge equals the id of a real lanelet, "
+    "merge_lanelets (which identifies lanelets by id) misreads the links (may raise or append at the wrong end); the model predicts "
+    "this (mergeChain), the property sentence (two lanelets in successor relation) does not cover it: compared, not judged. Same for a "
+    "predecessor that is also a successor of the start (closed ring)",
     "the exhaustive stream enumerates every labelled digraph without self-successors on <= 3 (quick) / <= 4 (thorough) nodes",
 ]
 TRUSTED = ["C20: termination of the real route functions is observed through a call budget on LaneletNetwork.find_lanelet_by_id "
@@ -44,11 +55,159 @@ REQUIRED_BUCKETS = ["poly", "poly3d", "poly/s=0", "poly/s=length", "poly/s=verte
                     "merge/right-boundary-repeats-vertex", "merge/pred-boundary-repeats-vertex", "merge/suc-boundary-repeats-vertex",
                     "poly/boundary-repeats-vertex", "merge/open", "merge/unlinked", "merge/swapped-args",
                     "net", "net/cyclic", "net/diamond", "net/range=path-length", "net/range-huge", "net/exhaustive",
-                    "net/pred-independent", "net/dangling-id", "net/witness"]
+                    "net/pred-independent", "net/dangling-id", "net/witness",
+                    # generator audit (DIMENSIONS): optional attributes, histories, entry points, value classes
+                    "poly/decor", "poly/large-offset", "poly/pre-distance", "poly/pre-deepcopy", "poly/pre-pickle", "poly/pre-polygon",
+                    "poly/s-type-int", "poly/s-type-npint", "poly/s-type-np64", "poly/query-after-failed-call",
+                    "merge/decor", "merge/obstacle-registries", "merge/repeated-call", "merge/retry-after-failed-call",
+                    "lanhist", "lanhist/setter-after-query", "lanhist/failed-setter", "lanhist/set_center", "lanhist/set_all",
+                    "lanhist/set_center_same", "lanhist/translate", "lanhist/deepcopy", "lanhist/pickle", "lanhist/inplace_before_query",
+                    "mergechain", "mergechain/tree", "mergechain/ring", "mergechain/chain>=3", "mergechain/range-default-arg",
+                    "net/decor", "net/duplicate-links", "net/range-type-int", "net/range-type-npint", "net/range-type-np64",
+                    "net/range-type-inf", "net/range-type-default", "net/range-type-keyword"]
+REQUIRED_BUCKETS += ["net/via-" + v for v in ("add_lanelet", "add_lanelet_rtree", "from_list", "from_list_cleanup", "from_network",
+                                              "add_from_network", "scenario_network", "scenario_lanelets")]
+REQUIRED_BUCKETS += ["net/pre-" + q for q in ("lanelets", "lanelet_polygons", "find_by_position", "distances", "polygons", "deepcopy",
+                                              "find_by_id")]
+REQUIRED_BUCKETS += ["net/edit-" + e for e in ("add_successor", "remove_successor", "add_predecessor", "remove_predecessor",
+                                               "successor_same_object", "successor_shuffled_copy", "successor_inplace_append",
+                                               "predecessor_inplace_remove", "remove_lanelet", "add_lanelet_late",
+                                               "add_existing_successor")]
 WORKERS = {"quick": 1, "thorough": 8}
 
 DIRS = [(3, 4, 5), (4, 3, 5), (5, 12, 13), (12, 5, 13), (8, 15, 17), (15, 8, 17), (7, 24, 25), (20, 21, 29), (1, 0, 1), (0, 1, 1)]
 TOL = 1e-9
+
+
+# ------------------------------------------------------------------------------------------------ dimension table
+# Every constructor parameter, settable attribute and public operation of the classes the property is anchored in, with how the
+# generator varies it ("varied: ..."), why it cannot influence what the property observes ("irrelevant: ...") or why it lies
+# outside the property's quantifier ("outside: ...").  check_dimensions() compares the table with the real signatures on every
+# run: a parameter / property / method the table does not know (or one that has gone) stops the run with exit 2.
+DIMENSIONS = {
+    "Lanelet.__init__": {
+        "left_vertices": "varied: offset or independent grid polylines, pivots (repeated vertices), int dtype, map-scale offsets, 3-D",
+        "center_vertices": "varied: Pythagorean grid polylines 2..8 vertices, repeated vertex (NaN stream), arbitrary doubles, int dtype, map-scale offsets, 3-D",
+        "right_vertices": "varied: as left_vertices",
+        "lanelet_id": "varied: 0, small, 5-digit ids; constructed with another id and re-assigned through the setter before use (decor reid)",
+        "predecessor": "varied: None / [] / lists, shuffled, mirrored or independent of the successor lists, duplicates, dangling ids",
+        "successor": "varied: as predecessor",
+        "adjacent_left": "varied: decor (never read by the observed functions; drawn so that it is not always None)",
+        "adjacent_left_same_direction": "varied: decor", "adjacent_right": "varied: decor", "adjacent_right_same_direction": "varied: decor",
+        "line_marking_left_vertices": "varied: decor", "line_marking_right_vertices": "varied: decor", "stop_line": "varied: decor",
+        "lanelet_type": "varied: decor", "user_one_way": "varied: decor", "user_bidirectional": "varied: decor",
+        "traffic_signs": "varied: decor", "traffic_lights": "varied: decor", "adjacent_areas": "varied: decor",
+    },
+    "Lanelet.setters": {
+        "center_vertices": "varied: lanhist set_center / set_all / same object handed back / failing assignment, before and after distance was read",
+        "left_vertices": "varied: lanhist set_all / failing assignment", "right_vertices": "varied: lanhist set_all / failing assignment",
+        "distance": "varied: lanhist set_distance_same (own value handed back); outside: a caller-supplied different array (the property speaks about the computed distance)",
+        "lanelet_id": "varied: decor reid (before the lanelet is used); outside: re-assignment after a network was assembled (the network's id table is C09/C10's subject)",
+        "predecessor": "varied: constructor path (None -> [])", "successor": "varied: net edits successor_same_object / successor_shuffled_copy",
+        "adj_left": "varied: decor via constructor", "adj_left_same_direction": "varied: decor via constructor",
+        "adj_right": "varied: decor via constructor", "adj_right_same_direction": "varied: decor via constructor",
+        "adjacent_areas": "varied: decor via constructor", "lanelet_type": "varied: decor via constructor",
+        "line_marking_left_vertices": "varied: decor via constructor", "line_marking_right_vertices": "varied: decor via constructor",
+        "stop_line": "varied: decor via constructor", "traffic_lights": "varied: decor via constructor",
+        "traffic_signs": "varied: decor via constructor", "user_bidirectional": "varied: decor via constructor",
+        "user_one_way": "varied: decor via constructor",
+        "static_obstacles_on_lanelet": "varied: decor static_obs (merge_lanelets merges these registries)",
+        "dynamic_obstacles_on_lanelet": "varied: decor dynamic_obs (merge_lanelets merges these registries)",
+    },
+    "Lanelet.readonly": {
+        "inner_distance": "varied: compared with CR.Arc.cumDistMin; read before the observation (pre / lanhist q)",
+        "polygon": "varied: read before the observation (pre / lanhist q); its content is C06/C11's subject",
+    },
+    "Lanelet.methods": {
+        "interpolate_position": "varied: observed; argument as float / int / numpy int64 / float64, failing calls followed by admissible ones",
+        "merge_lanelets": "varied: observed; both argument orders, repeated call on the same objects, failed call + add_successor + retry",
+        "find_lanelet_successors_in_range": "varied: observed; max_length positional float / int / numpy scalars / inf / keyword / default",
+        "find_lanelet_predecessors_in_range": "varied: observed; as successors",
+        "all_lanelets_by_merging_successors_from_lanelet": "varied: mergechain (trees, rings; default and explicit max_length)",
+        "all_lanelets_by_merging_predecessors_from_lanelet": "varied: mergechain",
+        "add_successor": "varied: net edits add_successor / add_existing_successor", "remove_successor": "varied: net edits",
+        "add_predecessor": "varied: net edits", "remove_predecessor": "varied: net edits",
+        "translate_rotate": "varied: lanhist translate (angle 0: exact); rotation is C05's subject",
+        "convert_to_2d": "varied: poly3 (3-D queries, convert_to_2d, planar queries)",
+        "convert_to_polygon": "irrelevant: returns the polygon attribute (deprecated alias)",
+        "contains_points": "irrelevant: reads the polygon only (C06)", "get_obstacles": "irrelevant: reads the polygon and obstacle occupancies (C06/C07)",
+        "orientation_by_position": "irrelevant: reads the centre vertices, caches nothing the property observes",
+        "add_adjacent_area_to_lanelet": "irrelevant: edits a set the observed functions never read",
+        "add_traffic_light_to_lanelet": "irrelevant: edits a set the observed functions never read",
+        "add_traffic_sign_to_lanelet": "irrelevant: edits a set the observed functions never read",
+        "add_static_obstacle_to_lanelet": "varied: decor static_obs through the setter (same registry)",
+        "add_dynamic_obstacle_to_lanelet": "varied: decor dynamic_obs through the setter (same registry)",
+        "dynamic_obstacle_by_time_step": "irrelevant: reads the obstacle registry only",
+    },
+    "LaneletNetwork.__init__": {"information": "irrelevant: map meta data, never read by the observed functions"},
+    "LaneletNetwork.methods": {
+        "add_lanelet": "varied: via add_lanelet (rtree False / True), net edit add_lanelet_late",
+        "create_from_lanelet_list": "varied: via from_list (cleanup_ids False) / from_list_cleanup (default True)",
+        "create_from_lanelet_network": "varied: via from_network", "add_lanelets_from_network": "varied: via add_from_network",
+        "remove_lanelet": "varied: net edit remove_lanelet (rtree False / True) between two rounds of route queries",
+        "cleanup_lanelet_references": "varied: through create_from_lanelet_list(cleanup_ids=True) and remove_lanelet",
+        "find_lanelet_by_id": "varied: the lookup the route functions use; counted for the termination watchdog; read-only pre query",
+        "find_lanelet_by_position": "varied: read-only pre query", "find_lanelet_by_shape": "irrelevant: read-only spatial query (C06)",
+        "find_most_likely_lanelet_by_state": "irrelevant: read-only spatial query", "lanelets_in_proximity": "irrelevant: read-only spatial query",
+        "translate_rotate": "irrelevant: moves vertices rigidly, link lists and lengths unchanged (C05/C11)",
+        "convert_to_2d": "irrelevant: network lanelets of the route stream are planar",
+        "add_area": "irrelevant: areas are not read by the observed functions", "remove_area": "irrelevant: as add_area",
+        "find_area_by_id": "irrelevant: as add_area",
+        "add_intersection": "irrelevant: intersections are not read by the observed functions", "remove_intersection": "irrelevant: as add_intersection",
+        "find_intersection_by_id": "irrelevant: as add_intersection",
+        "add_traffic_light": "irrelevant: lights are not read by the observed functions", "remove_traffic_light": "irrelevant: as add_traffic_light",
+        "find_traffic_light_by_id": "irrelevant: as add_traffic_light", "cleanup_traffic_light_references": "irrelevant: as add_traffic_light",
+        "get_traffic_lights_referenced_lanelets": "irrelevant: as add_traffic_light",
+        "add_traffic_sign": "irrelevant: signs are not read by the observed functions", "remove_traffic_sign": "irrelevant: as add_traffic_sign",
+        "find_traffic_sign_by_id": "irrelevant: as add_traffic_sign", "cleanup_traffic_sign_references": "irrelevant: as add_traffic_sign",
+        "get_traffic_sign_referenced_lanelets": "irrelevant: as add_traffic_sign",
+        "filter_obstacles_in_network": "irrelevant: obstacle query (C06)", "map_obstacles_to_lanelets": "irrelevant: obstacle registry (C07)",
+        "draw": "irrelevant: rendering (C19)",
+    },
+    "LaneletNetwork.properties": {
+        "lanelets": "varied: read-only pre query; read back to obtain the graph the route functions see",
+        "lanelet_polygons": "varied: read-only pre query", "areas": "irrelevant: see add_area", "information": "irrelevant: meta data",
+        "intersections": "irrelevant: see add_intersection", "map_inc_lanelets_to_intersections": "irrelevant: see add_intersection",
+        "traffic_lights": "irrelevant: see add_traffic_light", "traffic_signs": "irrelevant: see add_traffic_sign",
+    },
+}
+
+
+def check_dimensions():
+    """The table above must list exactly the real constructor parameters, properties and public methods (exit 2 otherwise)."""
+    import inspect
+    from common import InfraError
+    from commonroad.scenario.lanelet import Lanelet, LaneletNetwork
+
+    def params(f):
+        return [p for p in inspect.signature(f).parameters if p != "self"]
+
+    def props(cls, settable):
+        return [n for n, v in inspect.getmembers(cls) if isinstance(v, property) and (v.fset is not None) == settable]
+
+    def methods(cls):
+        return [n for n, v in inspect.getmembers(cls) if not n.startswith("_") and not isinstance(v, property) and callable(v)]
+
+    real = {
+        "Lanelet.__init__": params(Lanelet.__init__), "Lanelet.setters": props(Lanelet, True), "Lanelet.readonly": props(Lanelet, False),
+        "Lanelet.methods": methods(Lanelet), "LaneletNetwork.__init__": params(LaneletNetwork.__init__),
+        "LaneletNetwork.methods": methods(LaneletNetwork),
+        "LaneletNetwork.properties": props(LaneletNetwork, True) + props(LaneletNetwork, False),
+    }
+    problems = []
+    for group, names in real.items():
+        known = DIMENSIONS[group]
+        for n in names:
+            if n not in known:
+                problems.append(f"{group}: '{n}' exists in the code but is not in DIMENSIONS (decide how the generator varies it)")
+        for n in known:
+            if n not in names:
+                problems.append(f"{group}: '{n}' is in DIMENSIONS but no longer exists in the code")
+        for n, how in known.items():
+            if not how.split(":")[0] in ("varied", "irrelevant", "outside"):
+                problems.append(f"{group}: '{n}' has no decision")
+    if problems:
+        raise InfraError("C20 dimension table out of date:\n  " + "\n  ".join(problems))
 
 
 # ------------------------------------------------------------------------------------------------ helpers
@@ -95,13 +254,87 @@ def seglens_exact(pts):
     return out, exact
 
 
-def make_lanelet(left, center, right, lid=1, pred=None, succ=None):
+LINE_MARKINGS = ["DASHED", "SOLID", "BROAD_DASHED", "NO_MARKING", "UNKNOWN"]
+LANELET_TYPES = ["URBAN", "HIGHWAY", "INTERSECTION", "SIDEWALK"]
+ROAD_USERS = ["VEHICLE", "CAR", "BUS", "BICYCLE", "PEDESTRIAN"]
+
+
+def gen_decor(r, p=0.6):
+    """Optional constructor arguments / attributes of a Lanelet that the property does not mention (DIMENSIONS: 'decor'):
+    drawn at random so that none of them is always at its default."""
+    if r.random() > p:
+        return {}
+    d = {}
+    if r.random() < 0.5:
+        d["adj_left"] = [r.choice([0, 4, 88, 1234]), r.random() < 0.5]
+    if r.random() < 0.5:
+        d["adj_right"] = [r.choice([0, 6, 89]), r.random() < 0.5]
+    if r.random() < 0.5:
+        d["line_left"] = r.choice(LINE_MARKINGS)
+    if r.random() < 0.5:
+        d["line_right"] = r.choice(LINE_MARKINGS)
+    if r.random() < 0.3:
+        d["stop_line"] = [[r.randint(-9, 9), r.randint(-9, 9)], [r.randint(-9, 9), r.randint(10, 19)], r.choice(LINE_MARKINGS)]
+    for k, pool in (("types", LANELET_TYPES), ("one_way", ROAD_USERS), ("bidir", ROAD_USERS)):
+        if r.random() < 0.4:
+            d[k] = r.sample(pool, r.randint(0, 2))
+    for k in ("signs", "lights", "areas", "static_obs"):
+        if r.random() < 0.3:
+            d[k] = r.sample(range(200, 230), r.randint(0, 3))
+    if r.random() < 0.25:
+        d["dynamic_obs"] = {str(t): r.sample(range(300, 310), r.randint(1, 2)) for t in r.sample(range(0, 6), r.randint(1, 2))}
+    if r.random() < 0.3:
+        d["none_links"] = True        # empty predecessor / successor lists are passed as None (the constructor default)
+    if r.random() < 0.25:
+        d["reid"] = r.choice([0, 7, 99999])     # constructed with another id, lanelet_id re-assigned before any use
+    if r.random() < 0.3:
+        d["int_arrays"] = True        # integer dtype vertex arrays where all coordinates are integers
+    return d
+
+
+def make_lanelet(left, center, right, lid=1, pred=None, succ=None, decor=None):
+    import numpy as np
     from commonroad.scenario.lanelet import Lanelet
-    return Lanelet(pts_to_np(left), pts_to_np(center), pts_to_np(right), lid, predecessor=list(pred or []),
-                   successor=list(succ or []))
+    from commonroad.common.common_lanelet import LineMarking, LaneletType, RoadUser, StopLine
+    d = decor or {}
+    L, C, R = pts_to_np(left), pts_to_np(center), pts_to_np(right)
+    if d.get("int_arrays") and all(float(v).is_integer() for a in (L, C, R) for v in a.flat):
+        L, C, R = L.astype(np.int64), C.astype(np.int64), R.astype(np.int64)
+    pred, succ = list(pred or []), list(succ or [])
+    kw = {"predecessor": None if (d.get("none_links") and not pred) else pred,
+          "successor": None if (d.get("none_links") and not succ) else succ}
+    if "adj_left" in d:
+        kw["adjacent_left"], kw["adjacent_left_same_direction"] = d["adj_left"]
+    if "adj_right" in d:
+        kw["adjacent_right"], kw["adjacent_right_same_direction"] = d["adj_right"]
+    if "line_left" in d:
+        kw["line_marking_left_vertices"] = LineMarking[d["line_left"]]
+    if "line_right" in d:
+        kw["line_marking_right_vertices"] = LineMarking[d["line_right"]]
+    if "stop_line" in d:
+        a, b, m = d["stop_line"]
+        kw["stop_line"] = StopLine(np.array(a, dtype=float), np.array(b, dtype=float), LineMarking[m])
+    if "types" in d:
+        kw["lanelet_type"] = {LaneletType[t] for t in d["types"]}
+    if "one_way" in d:
+        kw["user_one_way"] = {RoadUser[t] for t in d["one_way"]}
+    if "bidir" in d:
+        kw["user_bidirectional"] = {RoadUser[t] for t in d["bidir"]}
+    if "signs" in d:
+        kw["traffic_signs"] = set(d["signs"])
+    if "lights" in d:
+        kw["traffic_lights"] = set(d["lights"])
+    if "areas" in d:
+        kw["adjacent_areas"] = set(d["areas"])
+    lan = Lanelet(L, C, R, d["reid"] if "reid" in d else lid, **kw)
+    if "reid" in d:
+        lan.lanelet_id = lid
+    if "static_obs" in d:
+        lan.static_obstacles_on_lanelet = set(d["static_obs"])
+    if "dynamic_obs" in d:
+        lan.dynamic_obstacles_on_lanelet = {int(t): set(v) for t, v in d["dynamic_obs"].items()}
+    return lan
 
-
-# ------------------------------------------------------------------------------------------------ generators
 
 def gen_center(r, n, repeated=False):
     x, y = Fraction(r.randint(-64, 64), 4), Fraction(r.randint(-64, 64), 4)
@@ -139,6 +372,9 @@ def gen_poly(ctx, repeated=False):
     if repeated:
         n = max(n, 3)
     c = gen_center(r, n, repeated)
+    if r.random() < 0.15:    # map-scale coordinates (UTM-like offsets); still exact: 2^k offsets, 1/16 grid
+        bx, by = 2 ** 20 * r.randint(1, 7), 2 ** 22 * r.choice([-1, 1])
+        c = [(x + bx, y + by) for x, y in c]
     lens, _ = seglens_exact(c)
     cum = [Fraction(0)]
     for le in lens:
@@ -160,10 +396,17 @@ def gen_poly(ctx, repeated=False):
     # just outside the admissible interval by one ulp
     tf = float(total)
     ss += [(Fraction(math.nextafter(tf, math.inf)), True), (Fraction(-5e-324), True)]
+    r.shuffle(ss)     # failing calls (out of range) are followed by admissible ones on the same lanelet
+    sl = [[rat(Fraction(float(s))), bool(e and Fraction(float(s)) == s)] for s, e in ss]
+    stypes = []       # scalar type the arc length is passed as
+    for sv, _ in sl:
+        integral = F(sv).denominator == 1 and abs(F(sv)) < 2 ** 50
+        stypes.append(r.choice(["float", "int", "npint", "np64"]) if integral else r.choice(["float", "float", "np64"]))
     return {"kind": "poly", "center": [[rat(x), rat(y)] for x, y in c],
             "right": [[rat(x), rat(y)] for x, y in gen_boundary(r, c, -1)],
             "left": [[rat(x), rat(y)] for x, y in gen_boundary(r, c, +1)],
-            "ss": [[rat(Fraction(float(s))), bool(e and Fraction(float(s)) == s)] for s, e in ss]}
+            "ss": sl, "stypes": stypes, "decor": gen_decor(r),
+            "pre": r.sample(["distance", "inner_distance", "polygon", "deepcopy", "pickle", "interp0"], r.randint(0, 3))}
 
 
 def gen_polyfloat(ctx):
@@ -228,8 +471,10 @@ def gen_merge(ctx):
                 "center": [[rat(x), rat(y)] for x, y in ce], "right": [[rat(x), rat(y)] for x, y in ri]}
 
     a, b = lan(ida, a_pred, a_succ, la, ca, ra), lan(idb, b_pred, b_succ, lb, cb, rb)
+    a["decor"], b["decor"] = gen_decor(r), gen_decor(r)
     swapped = r.random() < 0.4
-    return {"kind": "merge", "l1": b if swapped else a, "l2": a if swapped else b, "joint": joint, "link": link}
+    return {"kind": "merge", "l1": b if swapped else a, "l2": a if swapped else b, "joint": joint, "link": link,
+            "retry_link": link == "none" and r.random() < 0.7}
 
 
 def gen_lengths(r, ids, uniform=None):
@@ -365,10 +610,49 @@ def gen_net(ctx):
     if dangling:   # some link targets name no lanelet (find_lanelet_by_id -> None): outside the property, correspondence only
         for _ in range(r.randint(1, 2)):
             r.choice([succ, pred])[r.choice(ids)].append(r.choice([97, 98, 99]))
+    if r.random() < 0.1 and n >= 2 and shape != "dense":
+        # value class: the same id twice in a successor / predecessor list
+        for _ in range(r.randint(1, 2)):
+            tbl = r.choice([succ, pred])
+            v = r.choice(ids)
+            if tbl[v]:
+                tbl[v].insert(r.randrange(len(tbl[v]) + 1), r.choice(tbl[v]))
     c = net_case(ids, succ, pred, lens, queries, shape)
     c["pred_independent"] = indep
     c["dangling"] = dangling
+    widen_net_case(r, c, ids)
     return c
+
+
+def widen_net_case(r, c, ids):
+    """Dimensions beyond the graph itself: entry point that assembles the network, optional lanelet attributes, read-only queries
+    before the observation, scalar type / default / keyword form of max_length, link edits after the first round of queries."""
+    c["via"] = r.choice(NET_VIAS)
+    if c.get("dangling") and c["via"] == "from_list_cleanup" and r.random() < 0.5:
+        c["via"] = "from_list"
+    for nd in c["nodes"]:
+        if r.random() < 0.3:
+            nd["decor"] = gen_decor(r, 1.0)
+            if c["via"] == "from_network":      # create_from_lanelet_network copies the referenced signs / lights: they would
+                for k in ("signs", "lights", "areas"):   # have to exist in the network (dangling references are C10's subject)
+                    nd["decor"].pop(k, None)
+    c["pre"] = r.sample(NET_PRE, r.choice([0, 0, 1, 2, 3]))
+    for q in c["queries"]:
+        mx = F(q["max"])
+        opts = ["float", "float", "float", "np64", "keyword"]
+        if mx.denominator == 1:
+            opts += ["int", "npint"]
+        if mx == 50:
+            opts += ["default", "default"]
+        if mx >= 2 ** 39:
+            opts += ["inf", "inf"]
+        q["type"] = r.choice(opts)
+    if r.random() < 0.35 and len(ids) >= 2:
+        edits = []
+        for _ in range(r.randint(1, 3)):
+            a, b = r.sample(ids, 2)
+            edits.append([r.choice(LINK_EDITS), a, b])
+        c["edits"] = edits
 
 
 def exhaustive_nets(k):
@@ -391,6 +675,10 @@ def exhaustive_case(ids, succ, r):
     queries = [(st, m) for st in ids for m in ms]
     c = net_case(ids, succ, pred, lens, queries, "exhaustive")
     c["pred_independent"] = False
+    c["via"] = r.choice(NET_VIAS)
+    if r.random() < 0.15 and len(ids) >= 2:
+        a, b = r.sample(ids, 2)
+        c["edits"] = [[r.choice(LINK_EDITS), a, b]]
     return c
 
 
@@ -431,11 +719,39 @@ def run_poly(ctx, case):
     if repeated:
         ctx.tag("poly/repeated-vertex")
     ctx.case(case)
-    res = call(make_lanelet, le, c, ri)
+    res = call(make_lanelet, le, c, ri, 1, None, None, case.get("decor"))
     if res[0] == "err":
         ctx.fail(f"C20/Lanelet/raises-{res[1]}", f"Lanelet constructor raises for a valid polyline: {res[2]}", case)
         return
     lan = res[1]
+    if case.get("decor"):
+        ctx.tag("poly/decor")
+    if max(abs(v) for pt in cF for v in pt) > 2 ** 19:
+        ctx.tag("poly/large-offset")
+    # read-only queries / copies BEFORE the observation (lazily computed attributes materialised, caches carried by copies)
+    for q in case.get("pre", []):
+        ctx.tag("poly/pre-" + q)
+        if q == "deepcopy":
+            import copy
+            lan = copy.deepcopy(lan)
+        elif q == "pickle":
+            import pickle
+            lan = pickle.loads(pickle.dumps(lan))
+        elif q == "interp0":
+            call(lan.interpolate_position, 0.0)
+        elif q == "polygon":
+            _ = lan.polygon
+        else:
+            _ = getattr(lan, q)
+    observe_poly(ctx, case, lan)
+
+
+def observe_poly(ctx, case, lan):
+    """Correspondence + oracle of distance / inner_distance / interpolate_position for `lan`, whose primary data are `case`'s."""
+    import numpy as np
+    c, ri, le = case["center"], case["right"], case["left"]
+    cF = [(F(x), F(y)) for x, y in c]
+    repeated = any(a == b for a, b in zip(cF, cF[1:]))
     C = pts_to_np(c)
     lens = np_seglens(C)
     lens_r = [rat(v) for v in lens]
@@ -444,11 +760,17 @@ def run_poly(ctx, case):
         ctx.fail(f"C20/distance/raises-{dres[1]}", f"Lanelet.distance raises: {dres[2]}", case)
         return
     d = [float(v) for v in dres[1]]
-    ctx.compare(case, [rat(v) for v in d], ctx.driver.ask("C20", "cum", {"lens": lens_r}), "Lanelet.distance vs CR.Arc.cumDist")
+    grid = seglens_exact(cF)[1]       # Pythagorean grid geometry: numpy's arithmetic is exact; otherwise within 1e-9 relative
+    mc = ctx.driver.ask("C20", "cum", {"lens": lens_r})
+    dc = [rat(v) for v in d]
+    if not grid and len(dc) == len(mc) and close_pt(dc, mc):
+        dc = mc
+    ctx.compare(case, dc, mc, "Lanelet.distance vs CR.Arc.cumDist")
     # the side condition of the Euclidean theorems (C20_cum_euclid, C20_interp_arclength): the lengths numpy computed are the
     # non-negative roots of the squared vertex distances — exact on the grid, so the model's decidable `isEuclid` must say true
-    ctx.compare(case, True, ctx.driver.ask("C20", "euclid", {"center": c, "lens": lens_r}),
-                "numpy segment lengths satisfy CR.Arc.isEuclid (l_i >= 0, l_i^2 = |c_i+1 - c_i|^2)")
+    if grid:
+        ctx.compare(case, True, ctx.driver.ask("C20", "euclid", {"center": c, "lens": lens_r}),
+                    "numpy segment lengths satisfy CR.Arc.isEuclid (l_i >= 0, l_i^2 = |c_i+1 - c_i|^2)")
     # inner_distance (same helper, two polylines, np.amin)
     ires = call(lambda: lan.inner_distance)
     ll, lr = np_seglens(pts_to_np(le)), np_seglens(pts_to_np(ri))
@@ -456,12 +778,33 @@ def run_poly(ctx, case):
     ii = [rat(float(v)) for v in ires[1]] if ires[0] == "ok" else {"err": ires[1]}
     if isinstance(ii, list) and len(ii) == len(mi) and close_pt(ii, mi):
         ii = mi     # boundary segment lengths are not exact: float cumsum vs rational sum within 1e-9 relative
-    ctx.compare(case, ii, mi, "Lanelet.inner_distance vs CR.Arc.cumDistMin")
+    if not case.get("skip_inner"):
+        ctx.compare(case, ii, mi, "Lanelet.inner_distance vs CR.Arc.cumDistMin")
     ss = case["ss"]
     sfl = [float(F(s)) for s, _ in ss]
-    impl = [canon_interp(call(lan.interpolate_position, s)) for s in sfl]
+    stypes = case.get("stypes") or ["float"] * len(sfl)
+
+    def typed(v, t):
+        if t == "int":
+            return int(v)
+        if t == "npint":
+            return np.int64(int(v))
+        if t == "np64":
+            return np.float64(v)
+        return v
+
+    for t in set(stypes):
+        ctx.tag("poly/s-type-" + t)
+    seen_fail = False
+    impl = []
+    for sv, t in zip(sfl, stypes):
+        im = canon_interp(call(lan.interpolate_position, typed(sv, t)))
+        if "ok" in im and seen_fail:
+            ctx.tag("poly/query-after-failed-call")
+        seen_fail = seen_fail or im.get("err") == "assert"
+        impl.append(im)
     model = ctx.driver.ask("C20", "interp", {"center": c, "right": ri, "left": le, "lens": lens_r, "ss": [s for s, _ in ss]})
-    impl_c = [im if ex else snap_interp(im, mo) for im, mo, (_, ex) in zip(impl, model, ss)]
+    impl_c = [im if (ex and grid) else snap_interp(im, mo) for im, mo, (_, ex) in zip(impl, model, ss)]
     for s in sfl:
         if s == 0:
             ctx.tag("poly/s=0")
@@ -493,6 +836,8 @@ def oracle_poly(ctx, case, lan, d, sfl, impl, extra_tol=None):
         cum.append(cum[-1] + v)
     total = cum[-1]
     sub = {k: case[k] for k in ("kind", "center", "right", "left")}
+    sub.update({k: case[k] for k in ("decor", "pre") if k in case})
+    stl = case.get("stypes") if len(case.get("stypes") or []) == len(sfl) else None
     scale = 1 + max(abs(v) for p in c + ri + le for v in p)
     tol = Fraction(TOL) * scale
     if len(d) != len(c):
@@ -506,11 +851,11 @@ def oracle_poly(ctx, case, lan, d, sfl, impl, extra_tol=None):
         ctx.fail("C20/distance/last-is-not-centre-length", f"distance[-1] = {d[-1]}, centre line length = {float(total)}",
                  sub | {"ss": []})
     dl = Fraction(d[-1])
-    for s, im in zip(sfl, impl):
+    for si, (s, im) in enumerate(zip(sfl, impl)):
         sF = Fraction(s)
         if not (0 <= sF <= total and sF <= dl):
             continue   # the property speaks about 0 <= s <= length only
-        one = sub | {"ss": [[rat(sF), False]]}
+        one = sub | {"ss": [[rat(sF), False]]} | ({"stypes": [stl[si]]} if stl else {})
         if "err" in im:
             what = "returns NaN coordinates" if im["err"] == "zero-div" else f"raises {im['err']}"
             ctx.fail(f"C20/interpolate_position/{'nan' if im['err'] == 'zero-div' else 'raises-' + im['err']}",
@@ -579,25 +924,49 @@ def run_polyfloat(ctx, case):
 # ------------------------------------------------------------------------------------------------ merge
 
 def lanelet_of(d):
-    return make_lanelet(d["left"], d["center"], d["right"], d["id"], d["pred"], d["succ"])
+    return make_lanelet(d["left"], d["center"], d["right"], d["id"], d["pred"], d["succ"], d.get("decor"))
 
 
-def run_merge(ctx, case):
+def canon_lanelet(m):
+    ints = lambda l: None if l is None else [int(v) for v in l]  # noqa: E731
+    return {"id": int(m.lanelet_id), "pred": ints(m.predecessor), "succ": ints(m.successor),
+            "left": pts_rat(m.left_vertices), "center": pts_rat(m.center_vertices), "right": pts_rat(m.right_vertices)}
+
+
+def run_merge(ctx, case, objs=None):
     import numpy as np
     from commonroad.scenario.lanelet import Lanelet
-    ctx.case(case)
     l1, l2 = case["l1"], case["l2"]
-    a, b = lanelet_of(l1), lanelet_of(l2)
+    if objs is None:
+        ctx.case(case)
+        a, b = lanelet_of(l1), lanelet_of(l2)
+        if l1.get("decor") or l2.get("decor"):
+            ctx.tag("merge/decor")
+        if any("static_obs" in l.get("decor", {}) or "dynamic_obs" in l.get("decor", {}) for l in (l1, l2)):
+            ctx.tag("merge/obstacle-registries")
+    else:
+        a, b = objs
     res = call(Lanelet.merge_lanelets, a, b)
     if res[0] == "ok":
         m = res[1]
-        impl = {"ok": {"id": int(m.lanelet_id), "pred": [int(v) for v in m.predecessor], "succ": [int(v) for v in m.successor],
-                       "left": pts_rat(m.left_vertices), "center": pts_rat(m.center_vertices), "right": pts_rat(m.right_vertices)}}
+        impl = {"ok": canon_lanelet(m)}
     else:
         impl = {"err": res[1]}
     strip = lambda l: {k: l[k] for k in ("id", "pred", "succ", "left", "center", "right")}  # noqa: E731
     model = ctx.driver.ask("C20", "merge", {"l1": strip(l1), "l2": strip(l2)})
     ctx.compare(case, impl, model, "Lanelet.merge_lanelets vs CR.Arc.mergeLanelets")
+    if res[0] == "ok":
+        # the same two objects merged a second time (object reuse): same answer
+        res2 = call(Lanelet.merge_lanelets, a, b)
+        ctx.tag("merge/repeated-call")
+        ctx.compare(case, {"ok": canon_lanelet(res2[1])} if res2[0] == "ok" else {"err": res2[1]}, model,
+                    "second Lanelet.merge_lanelets call on the same objects vs CR.Arc.mergeLanelets")
+    elif case.get("retry_link") and objs is None:
+        # a failed merge (unlinked) followed by add_successor on the same objects and a second merge
+        ctx.tag("merge/retry-after-failed-call")
+        a.add_successor(l2["id"])
+        case2 = dict(case, l1=dict(l1, succ=list(l1["succ"]) + [l2["id"]]), retry_link=False)
+        run_merge(ctx, case2, (a, b))
     linked = l1["id"] in l2["succ"] or l2["id"] in l1["succ"] or l1["id"] in l2["pred"] or l2["id"] in l1["pred"]
     if not linked:
         ctx.tag("merge/unlinked")
@@ -632,7 +1001,7 @@ def run_merge(ctx, case):
             if any(u == v for u, v in zip(lan_[side], lan_[side][1:])):
                 ctx.tag(f"merge/{side}-boundary-repeats-vertex")
                 ctx.tag(f"merge/{which}-boundary-repeats-vertex")
-    sub = {"kind": "merge", "l1": strip(l1), "l2": strip(l2)}
+    sub = {"kind": "merge", "l1": l1, "l2": l2}
     if res[0] == "err":
         ctx.fail(f"C20/merge_lanelets/raises-{res[1]}", f"merge of lanelet {first['id']} with its successor {second['id']} raises {res[2]}", sub)
         return
@@ -663,22 +1032,19 @@ def _on_alarm(signum, frame):
     raise _Alarm()
 
 
-def build_net(nodes):
-    """Real lanelets (straight, length = len) in a real LaneletNetwork subclass that counts find_lanelet_by_id calls."""
+NET_VIAS = ["add_lanelet", "add_lanelet_rtree", "from_list", "from_list_cleanup", "from_network", "add_from_network",
+            "scenario_network", "scenario_lanelets"]
+NET_PRE = ["lanelets", "lanelet_polygons", "find_by_position", "distances", "polygons", "deepcopy", "find_by_id"]
+LINK_EDITS = ["add_successor", "remove_successor", "add_predecessor", "remove_predecessor", "successor_same_object",
+              "successor_shuffled_copy", "successor_inplace_append", "predecessor_inplace_remove", "remove_lanelet",
+              "add_lanelet_late", "add_existing_successor"]
+
+
+def build_net(nodes, via="add_lanelet"):
+    """Real lanelets (straight, length = len) in a real LaneletNetwork assembled through one of the public entry points."""
+    import numpy as np
     from commonroad.scenario.lanelet import LaneletNetwork
-
-    class CountingNet(LaneletNetwork):
-        c20_calls = 0
-        c20_budget = 10 ** 9
-
-        def find_lanelet_by_id(self, lanelet_id):
-            self.c20_calls += 1
-            if self.c20_calls > self.c20_budget:
-                raise Budget()
-            return super().find_lanelet_by_id(lanelet_id)
-
-    net = CountingNet()
-    lans = {}
+    lans = []
     for k, nd in enumerate(nodes):
         le = F(nd["len"])
         y = 4 * k
@@ -688,10 +1054,110 @@ def build_net(nodes):
             c = [(Fraction(0), Fraction(y)), (h, Fraction(y)), (le, Fraction(y))]
         else:
             c = [(Fraction(0), Fraction(y)), (le, Fraction(y))]
-        lan = make_lanelet([(x, yy + 1) for x, yy in c], c, [(x, yy - 1) for x, yy in c], nd["id"], nd["pred"], nd["succ"])
-        net.add_lanelet(lan, rtree=False)
-        lans[nd["id"]] = lan
-    return net, lans
+        lans.append(make_lanelet([(x, yy + 1) for x, yy in c], c, [(x, yy - 1) for x, yy in c], nd["id"], nd["pred"], nd["succ"],
+                                 nd.get("decor")))
+    if via in ("add_lanelet", "add_lanelet_rtree"):
+        net = LaneletNetwork()
+        for la in lans:
+            net.add_lanelet(la, rtree=(via == "add_lanelet_rtree"))
+    elif via == "from_list":
+        net = LaneletNetwork.create_from_lanelet_list(lans, cleanup_ids=False)
+    elif via == "from_list_cleanup":
+        net = LaneletNetwork.create_from_lanelet_list(lans)     # default cleanup_ids=True drops references to unknown ids
+    elif via == "from_network":
+        n0 = LaneletNetwork()
+        for la in lans:
+            n0.add_lanelet(la, rtree=False)
+        net = LaneletNetwork.create_from_lanelet_network(n0, cleanup_ids=False)
+    elif via == "add_from_network":
+        n0 = LaneletNetwork()
+        for la in lans:
+            n0.add_lanelet(la, rtree=False)
+        net = LaneletNetwork()
+        net.add_lanelets_from_network(n0)
+    elif via == "scenario_network":
+        from commonroad.scenario.scenario import Scenario
+        n0 = LaneletNetwork()
+        for la in lans:
+            n0.add_lanelet(la, rtree=False)
+        sc = Scenario(0.1)
+        sc.add_objects(n0)
+        net = sc.lanelet_network
+    elif via == "scenario_lanelets":
+        from commonroad.scenario.scenario import Scenario
+        sc = Scenario(0.1)
+        sc.add_objects(lans[:1])
+        for la in lans[1:]:
+            sc.add_objects(la)
+        net = sc.lanelet_network
+    else:
+        raise RuntimeError(f"C20: unknown network entry point {via}")
+    return net
+
+
+def install_counter(net):
+    """Count (and bound) the find_lanelet_by_id calls of this network object: the termination watchdog."""
+    orig = net.find_lanelet_by_id
+    st = {"calls": 0, "budget": 10 ** 9}
+
+    def counted(lanelet_id):
+        st["calls"] += 1
+        if st["calls"] > st["budget"]:
+            raise Budget()
+        return orig(lanelet_id)
+
+    net.find_lanelet_by_id = counted
+    st["orig"] = orig
+    return st
+
+
+def read_graph(net):
+    """The graph the route functions see NOW: successor / predecessor lists and lengths of the lanelets in the network."""
+    out = []
+    for la in net.lanelets:
+        out.append({"id": int(la.lanelet_id), "succ": [int(v) for v in la.successor], "pred": [int(v) for v in la.predecessor],
+                    "len": rat(float(la.distance[-1]))})
+    return out
+
+
+def apply_link_edit(net, lookup, op, a, b):
+    """One public mutation of the links after the network was assembled (and queried). a, b: lanelet ids."""
+    la = lookup(a)
+    if la is None:
+        return
+    if op == "add_successor":
+        la.add_successor(b)
+    elif op == "add_existing_successor":
+        if la.successor:
+            la.add_successor(la.successor[0])       # already present: must not be duplicated
+    elif op == "remove_successor":
+        if la.successor:
+            la.remove_successor(la.successor[b % len(la.successor)])
+    elif op == "add_predecessor":
+        la.add_predecessor(b)
+    elif op == "remove_predecessor":
+        if la.predecessor:
+            la.remove_predecessor(la.predecessor[b % len(la.predecessor)])
+    elif op == "successor_same_object":
+        la.successor = la.successor                 # the very same list handed back to the setter
+    elif op == "successor_shuffled_copy":
+        la.successor = list(reversed(la.successor))
+    elif op == "successor_inplace_append":
+        if b not in la.successor:
+            la.successor.append(b)                  # the list is returned by reference
+    elif op == "predecessor_inplace_remove":
+        if la.predecessor:
+            la.predecessor.pop()
+    elif op == "remove_lanelet":
+        net.remove_lanelet(a, rtree=bool(b % 2))
+    elif op == "add_lanelet_late":
+        new_id = 70 + b % 20
+        if lookup(new_id) is None:
+            c = [(Fraction(0), Fraction(-8)), (Fraction(3, 2), Fraction(-8))]
+            net.add_lanelet(make_lanelet([(x, y + 1) for x, y in c], c, [(x, y - 1) for x, y in c], new_id, [a], []), rtree=False)
+            la.add_successor(new_id)
+    else:
+        raise RuntimeError(f"C20: unknown link edit {op}")
 
 
 def count_simple_paths(nbr, start, cap=400000):
@@ -749,19 +1215,31 @@ def check_routes(ctx, fname, nbr, lens, start, mx, paths, sub):
         ctx.fail(f"{key}/direct-{word}-not-covered", f"direct {word}s {miss} of {start} head no returned path {paths}", sub)
 
 
-def run_net(ctx, case):
-    nodes, queries = case["nodes"], case["queries"]
+def typed_range(mx, t):
+    """The max_length argument as the scalar type `t` (value class: int / numpy scalars / inf where a float is usual)."""
+    import numpy as np
+    if t == "int" and mx.denominator == 1:
+        return int(mx)
+    if t == "np64":
+        return np.float64(float(mx))
+    if t == "npint" and mx.denominator == 1 and abs(mx) < 2 ** 62:
+        return np.int64(int(mx))
+    if t == "inf" and mx >= 2 ** 39:
+        return math.inf
+    return float(mx)
+
+
+def observe_routes(ctx, case, net, counter, queries, rnd):
+    """One round of route queries on the network as it is now: correspondence (model on the graph read back from the real
+    objects) and oracle (graph-path checker on the same graph)."""
+    nodes = read_graph(net)
     ids = [nd["id"] for nd in nodes]
     succ = {nd["id"]: list(nd["succ"]) for nd in nodes}
     pred = {nd["id"]: list(nd["pred"]) for nd in nodes}
-    ctx.tag("net")
-    if case.get("shape") == "exhaustive":
-        ctx.tag("net/exhaustive")
-    if case.get("shape") == "diamond":
-        ctx.tag("net/diamond")
-    if case.get("pred_independent"):
-        ctx.tag("net/pred-independent")
-    # cyclic?
+    lens = {nd["id"]: F(nd["len"]) for nd in nodes}
+    queries = [q for q in queries if q["start"] in succ]
+    if not queries:
+        return
     color = {}
 
     def cyc(v):
@@ -774,15 +1252,14 @@ def run_net(ctx, case):
 
     if any(v not in color and cyc(v) for v in ids):
         ctx.tag("net/cyclic")
+    if any(len(set(v)) != len(v) for v in list(succ.values()) + list(pred.values())):
+        ctx.tag("net/duplicate-links")
     dangling = any(t not in succ for nd in nodes for t in nd["succ"] + nd["pred"])
+    selfloop = any(i in succ[i] or i in pred[i] for i in ids)
     if dangling:
         ctx.tag("net/dangling-id")
         ctx.excluded += 1
-    ctx.case(case)
-    net, lans = build_net(nodes)
-    lens = {i: Fraction(float(lans[i].distance[-1])) for i in ids}
-    # the model's length function is what the real lanelets report (`distance[-1]`); on the unchanged tree = the requested length
-    model = ctx.driver.ask("C20", "routes", {"net": [nd | {"len": rat(lens[nd["id"]])} for nd in nodes], "queries": queries})
+    model = ctx.driver.ask("C20", "routes", {"net": nodes, "queries": [{"start": q["start"], "max": q["max"]} for q in queries]})
     impl = []
     npaths = {}
     old = signal.signal(signal.SIGALRM, _on_alarm)
@@ -791,23 +1268,32 @@ def run_net(ctx, case):
             st, mx = q["start"], F(q["max"])
             if mx >= 2 ** 39:
                 ctx.tag("net/range-huge")
+            t = q.get("type", "float")
+            if t != "float":
+                ctx.tag("net/range-type-" + t)
+            start_lan = counter["orig"](st)
             row = []
             for fname, nbr in (("find_lanelet_successors_in_range", succ), ("find_lanelet_predecessors_in_range", pred)):
                 kk = (fname, st)
                 if kk not in npaths:
-                    npaths[kk] = count_simple_paths({k: [t for t in v if t in nbr] for k, v in nbr.items()}, st)
+                    npaths[kk] = count_simple_paths({k: [t_ for t_ in v if t_ in nbr] for k, v in nbr.items()}, st)
                 deg = max([len(v) for v in nbr.values()] + [1])
-                net.c20_calls = 0
+                counter["calls"] = 0
                 # a correct run looks up one successor list and at most `deg` lengths per duplicate-free chain: 3x that is generous
-                net.c20_budget = 3 * (npaths[kk] + len(ids) + 1) * (deg + 2) + 50
+                counter["budget"] = 3 * (npaths[kk] + len(ids) + 1) * (deg + 2) + 50
                 sub = {"kind": "net", "nodes": nodes, "queries": [q]}
                 signal.setitimer(signal.ITIMER_REAL, 30.0)
                 try:
-                    out = getattr(lans[st], fname)(net, float(mx))
+                    if t == "default" and mx == 50:
+                        out = getattr(start_lan, fname)(net)                 # max_length left at its default (50.0)
+                    elif t == "keyword":
+                        out = getattr(start_lan, fname)(lanelet_network=net, max_length=float(mx))
+                    else:
+                        out = getattr(start_lan, fname)(net, typed_range(mx, t))
                     signal.setitimer(signal.ITIMER_REAL, 0)
                     out = [[int(v) for v in p] for p in out]
                     row.append({"ok": out})
-                    if not dangling:
+                    if not dangling and not selfloop:
                         check_routes(ctx, fname, nbr, lens, st, mx, out, sub)
                     acc_hit = any(sum((lens[v] for v in p[:j]), Fraction(0)) == mx for p in out for j in range(1, len(p) + 1))
                     if acc_hit:
@@ -816,7 +1302,7 @@ def run_net(ctx, case):
                     signal.setitimer(signal.ITIMER_REAL, 0)
                     row.append({"err": "nontermination"})
                     ctx.fail(f"C20/{fname}/does-not-terminate",
-                             f"{fname}(start={st}, max_length={float(mx)}) exceeded {net.c20_budget} network lookups "
+                             f"{fname}(start={st}, max_length={float(mx)}) exceeded {counter['budget']} network lookups "
                              f"(the graph has {npaths[kk]} loop-free chains from the start)", sub)
                 except Exception as e:  # noqa
                     signal.setitimer(signal.ITIMER_REAL, 0)
@@ -829,11 +1315,407 @@ def run_net(ctx, case):
     finally:
         signal.setitimer(signal.ITIMER_REAL, 0)
         signal.signal(signal.SIGALRM, old)
-    ctx.compare(case, impl, model, "find_lanelet_{successors,predecessors}_in_range vs CR.Route.find{Successors,Predecessors}")
-    if "expect_successors" in case:   # witness cases of CRProps/C20.lean (C20_witness_route_*), replayed on the real code
+    ctx.compare(case, impl, model, f"find_lanelet_{{successors,predecessors}}_in_range vs CR.Route.find{{Successors,Predecessors}}R (round {rnd})")
+    return impl
+
+
+def run_net(ctx, case):
+    nodes, queries = case["nodes"], case["queries"]
+    ctx.tag("net")
+    if case.get("shape") == "exhaustive":
+        ctx.tag("net/exhaustive")
+    if case.get("shape") == "diamond":
+        ctx.tag("net/diamond")
+    if case.get("pred_independent"):
+        ctx.tag("net/pred-independent")
+    ctx.case(case)
+    via = case.get("via", "add_lanelet")
+    ctx.tag("net/via-" + via)
+    if any(nd.get("decor") for nd in nodes):
+        ctx.tag("net/decor")
+    net = build_net(nodes, via)
+    # read-only queries before the observation
+    for q in case.get("pre", []):
+        ctx.tag("net/pre-" + q)
+        if q == "lanelets":
+            _ = net.lanelets
+        elif q == "lanelet_polygons":
+            _ = net.lanelet_polygons
+        elif q == "find_by_position":
+            import numpy as np
+            call(net.find_lanelet_by_position, [np.array([0.25, 0.0]), np.array([-50.0, 3.0])])
+        elif q == "distances":
+            for la in net.lanelets:
+                _ = la.distance, la.inner_distance
+        elif q == "polygons":
+            for la in net.lanelets:
+                _ = la.polygon
+        elif q == "find_by_id":
+            for nd in nodes:
+                net.find_lanelet_by_id(nd["id"])
+            net.find_lanelet_by_id(10 ** 6)
+        elif q == "deepcopy":
+            import copy
+            net = copy.deepcopy(net)
+    counter = install_counter(net)
+    impl = observe_routes(ctx, case, net, counter, queries, 1)
+    if "expect_successors" in case and impl is not None:   # witness cases of CRProps/C20.lean (C20_witness_route_*)
         ctx.tag("net/witness")
         ctx.compare(case, [row[0] for row in impl], [{"ok": e} for e in case["expect_successors"]],
                     "find_lanelet_successors_in_range on the witness networks of C20_witness_route_not_maximal / _duplicates")
+    edits = case.get("edits", [])
+    if edits:
+        # public mutations of the links AFTER the first round of queries, then the same queries again
+        for op, a, b in edits:
+            ctx.tag("net/edit-" + op)
+            apply_link_edit(net, counter["orig"], op, a, b)
+        observe_routes(ctx, case, net, counter, queries, 2)
+
+
+# ------------------------------------------------------------------------------------------------ lanelet histories
+
+def gen_lanhist(ctx):
+    """A lanelet with a history: read-only queries (caches filled), public setters of the vertices (same object handed back,
+    new polylines, a failing assignment), rigid translation, copies — then the observation."""
+    r = ctx.rng
+
+    def polys(n):
+        c = gen_center(r, n)
+        return {"center": [[rat(x), rat(y)] for x, y in c], "right": [[rat(x), rat(y)] for x, y in gen_boundary(r, c, -1)],
+                "left": [[rat(x), rat(y)] for x, y in gen_boundary(r, c, +1)]}
+
+    n = r.choice([2, 3, 3, 4, 6])
+    case = {"kind": "lanhist", **polys(n), "decor": gen_decor(r)}
+    ops = []
+    if r.random() < 0.3:
+        ops.append(["inplace_before_query", r.randrange(n), r.randint(1, 8)])   # c[i] += (k, 0) in place, before anything is cached
+    for _ in range(r.randint(2, 7)):
+        k = r.choice(["q", "q", "interp", "set_center", "set_all", "set_center_same", "set_invalid", "translate", "deepcopy",
+                      "pickle", "set_distance_same"])
+        if k == "q":
+            ops.append(["q", r.choice(["distance", "distance", "inner_distance", "polygon"])])
+        elif k == "interp":
+            ops.append(["interp", rat(Fraction(r.randint(0, 8), 8))])
+        elif k == "set_center":
+            ops.append(["set_center", polys(n)["center"]])
+        elif k == "set_all":
+            n = r.choice([2, 3, 4, 5])
+            ops.append(["set_all", polys(n), r.sample(["center", "left", "right"], 3)])
+        elif k == "set_invalid":
+            ops.append(["set_invalid", r.choice(["center", "left", "right"])])
+        elif k == "translate":
+            ops.append(["translate", r.randint(-64, 64), r.randint(-64, 64)])
+        else:
+            ops.append([k])
+    case["ops"] = ops
+    return case
+
+
+def run_lanhist(ctx, case):
+    import copy
+    import pickle
+    import numpy as np
+    from commonroad.scenario.lanelet import Lanelet
+    ctx.tag("lanhist")
+    ctx.case(case)
+    cur = {k: [(F(x), F(y)) for x, y in case[k]] for k in ("center", "right", "left")}
+    res = call(make_lanelet, case["left"], case["center"], case["right"], 1, None, None, case.get("decor"))
+    if res[0] == "err":
+        ctx.fail(f"C20/Lanelet/raises-{res[1]}", f"Lanelet constructor raises for a valid polyline: {res[2]}", case)
+        return
+    lan = res[1]
+    cached = False          # has the cumulative distance been materialised?
+    last_mut = None         # last mutation since it was
+    hist = []
+
+    def as_case():
+        return {k: [[rat(x), rat(y)] for x, y in cur[k]] for k in ("center", "right", "left")}
+
+    def stale_check(where):
+        """`distance` must be what a lanelet freshly constructed from the current vertices reports."""
+        nonlocal cached, last_mut
+        fresh = Lanelet(pts_to_np(as_case()["left"]), pts_to_np(as_case()["center"]), pts_to_np(as_case()["right"]), 1)
+        got = call(lambda: lan.distance)
+        want = fresh.distance
+        ok = got[0] == "ok" and len(got[1]) == len(want) and all(
+            abs(float(a) - float(b)) <= 1e-9 * (1 + abs(float(b))) for a, b in zip(got[1], want))
+        if not ok:
+            mut = last_mut or "construction"
+            ctx.fail(f"C20/lanelet-history/distance-stale-after/{mut}",
+                     f"after {hist}: distance = {[float(v) for v in got[1]] if got[0] == 'ok' else got[1]}, a lanelet with the "
+                     f"current centre line has {[float(v) for v in want]} ({where})", case)
+            return False
+        cached, last_mut = True, None
+        return True
+
+    def step(op):
+        nonlocal lan, last_mut
+        k = op[0]
+        if k == "inplace_before_query":
+            i, dx = op[1] % len(cur["center"]), op[2]
+            x, y = cur["center"][i]
+            nb = [p for j, p in enumerate(cur["center"]) if abs(j - i) == 1]
+            if (x + dx, y) in nb:
+                return True                   # would repeat a vertex
+            if lan.center_vertices.dtype.kind != "f":
+                return True
+            lan.center_vertices[i, 0] += float(dx)
+            cur["center"][i] = (x + dx, y)
+        elif k == "q":
+            if op[1] == "distance":
+                if not stale_check("query"):
+                    return False
+            elif op[1] == "inner_distance":
+                _ = lan.inner_distance
+            else:
+                _ = lan.polygon
+        elif k == "interp":
+            if not stale_check("before interpolate_position"):
+                return False
+            call(lan.interpolate_position, float(F(op[1])) * float(lan.distance[-1]))
+        elif k == "set_center":
+            if len(op[1]) != len(cur["center"]):
+                return True
+            lan.center_vertices = pts_to_np(op[1])
+            cur["center"] = [(F(x), F(y)) for x, y in op[1]]
+            last_mut = "center_vertices-setter"
+            if cached:
+                ctx.tag("lanhist/setter-after-query")
+        elif k == "set_all":
+            for which in op[2]:
+                setattr(lan, which + "_vertices", pts_to_np(op[1][which]))
+                cur[which] = [(F(x), F(y)) for x, y in op[1][which]]
+            last_mut = "vertices-setters"
+            if cached:
+                ctx.tag("lanhist/setter-after-query")
+        elif k == "set_center_same":
+            lan.center_vertices = lan.center_vertices
+            last_mut = last_mut or "same-object-setter"
+        elif k == "set_distance_same":
+            if cached:
+                lan.distance = lan.distance
+        elif k == "set_invalid":
+            bad = call(setattr, lan, op[1] + "_vertices", np.array([[0.0, 0.0]]))    # one point: not a polyline
+            if bad[0] != "err":
+                ctx.excluded += 1     # the setter accepted it: nothing to say
+                return False
+            ctx.tag("lanhist/failed-setter")
+            last_mut = last_mut or "failed-setter"
+        elif k == "translate":
+            tx, ty = op[1], op[2]
+            lan.translate_rotate(np.array([float(tx), float(ty)]), 0.0)
+            for which in cur:
+                cur[which] = [(x + tx, y + ty) for x, y in cur[which]]
+            last_mut = last_mut or "translate_rotate"
+        elif k == "deepcopy":
+            lan = copy.deepcopy(lan)
+        elif k == "pickle":
+            lan = pickle.loads(pickle.dumps(lan))
+        else:
+            raise RuntimeError(f"C20: unknown history op {k}")
+        return True
+
+    for op in case["ops"]:
+        k = op[0]
+        hist.append(k if k != "q" else "q:" + op[1])
+        ctx.tag("lanhist/" + (k if k != "q" else "q-" + op[1]))
+        try:
+            go = step(op)
+        except RuntimeError:
+            raise
+        except Exception as e:  # noqa
+            from common import err_class
+            ctx.fail(f"C20/lanelet-history/{k}/raises-{err_class(e)}", f"after {hist}: {type(e).__name__}: {str(e)[:160]}", case)
+            return
+        if not go:
+            return
+    if not stale_check("final observation"):
+        return
+    # full observation (correspondence + oracle) on the final state
+    cF = cur["center"]
+    if any(a == b for a, b in zip(cF, cF[1:])):
+        return
+    lens, _ = seglens_exact(cF)
+    cum = [Fraction(0)]
+    for v in lens:
+        cum.append(cum[-1] + v)
+    ss = [cum[0], cum[-1]] + cum[1:-1] + [cum[i] + lens[i] / 2 for i in range(len(lens))] + [cum[-1] + Fraction(1, 16)]
+    if not seglens_exact(cF)[1]:
+        # an in-place vertex edit left the Pythagorean grid: lengths are rounded, so arc lengths exactly at a vertex / the end are
+        # ambiguous between float cumsum and rational sum; observe interior points, 0 and a clearly inadmissible value
+        ss = [cum[0]] + [cum[i] + lens[i] / 2 for i in range(len(lens))] + [cum[-1] + Fraction(1, 16)]
+    final = as_case()
+    final["kind"] = "poly"
+    final["ss"] = [[rat(Fraction(float(v))), bool(Fraction(float(v)) == v)] for v in ss] + [[rat(Fraction(float(cum[-1] / 3))), False]]
+    # inner_distance (cached like distance, reset by no setter) is not part of the property: compared only when it is current
+    fresh_inner = Lanelet(pts_to_np(final["left"]), pts_to_np(final["center"]), pts_to_np(final["right"]), 1).inner_distance
+    gi = call(lambda: lan.inner_distance)
+    if gi[0] != "ok" or len(gi[1]) != len(fresh_inner) or not np.allclose(gi[1], fresh_inner, rtol=1e-9, atol=1e-9):
+        final["skip_inner"] = True
+        ctx.excluded += 1
+    if any(u == v for side in (final["right"], final["left"]) for u, v in zip(side, side[1:])):
+        ctx.tag("poly/boundary-repeats-vertex")
+    observe_poly(ctx, final, lan)
+
+
+# ------------------------------------------------------------------------------------------------ merged routes (entry points)
+
+def gen_mergechain(ctx):
+    """A geometrically consistent network (every lanelet starts where its predecessor ends: out-tree, or a square ring with
+    tails) for all_lanelets_by_merging_successors_from_lanelet / all_lanelets_by_merging_predecessors_from_lanelet."""
+    r = ctx.rng
+    w = Fraction(r.randint(1, 6), 2)
+    shape = r.choice(["tree", "tree", "ring"])
+    lanelets = {}
+    ids = r.sample(range(0, 40), r.randint(1, 6) if shape == "tree" else r.randint(4, 6))
+
+    def mk(i, start, n=None, steps=None):
+        x, y = start
+        pts = [(x, y)]
+        for a, b in (steps or []):
+            x, y = x + a, y + b
+            pts.append((x, y))
+        if steps is None:
+            for _ in range((n or r.choice([2, 2, 3, 4])) - 1):
+                a, b, _l = r.choice(DIRS)
+                k = Fraction(r.choice([2, 4, 8, 16, 24]), 8)
+                x, y = x + a * k, y + r.choice([-1, 1]) * b * k     # x never decreases: no vertex is repeated
+                pts.append((x, y))
+        left = [(px, py + w) for px, py in pts]
+        right = [(px, py - w) for px, py in pts]
+        if len(pts) >= 4 and r.random() < 0.3:
+            j = r.randrange(1, len(pts) - 2)
+            left[j + 1] = left[j]           # pivot of the left boundary inside the lanelet
+        lanelets[i] = {"id": i, "pred": [], "succ": [], "left": left, "center": pts, "right": right}
+
+    if shape == "tree":
+        mk(ids[0], (Fraction(r.randint(-8, 8)), Fraction(r.randint(-8, 8))))
+        for k, i in enumerate(ids[1:], 1):
+            parent = ids[r.randrange(k)]
+            mk(i, lanelets[parent]["center"][-1])
+            lanelets[parent]["succ"].append(i)
+            lanelets[i]["pred"].append(parent)
+    else:
+        side = Fraction(r.choice([2, 3, 4, 6]))
+        z = Fraction(0)
+        corners = [(z, z), (side, z), (side, side), (z, side)]
+        for k in range(4):
+            (x0, y0), (x1, y1) = corners[k], corners[(k + 1) % 4]
+            mk(ids[k], (Fraction(x0), Fraction(y0)), steps=[((x1 - x0) / 2, (y1 - y0) / 2)] * 2)
+            # boundaries of a ring must meet at the corners as well: use the centre line itself shifted by a constant vector
+            lanelets[ids[k]]["left"] = [(px - w, py + w) for px, py in lanelets[ids[k]]["center"]]
+            lanelets[ids[k]]["right"] = [(px + w, py - w) for px, py in lanelets[ids[k]]["center"]]
+        for k in range(4):
+            a, b = ids[k], ids[(k + 1) % 4]
+            lanelets[a]["succ"].append(b)
+            lanelets[b]["pred"].append(a)
+        for i in ids[4:]:
+            parent = r.choice(ids[:4])
+            mk(i, lanelets[parent]["center"][-1])
+            lanelets[i]["left"] = [(px - w, py + w) for px, py in lanelets[i]["center"]]
+            lanelets[i]["right"] = [(px + w, py - w) for px, py in lanelets[i]["center"]]
+            lanelets[parent]["succ"].append(i)
+            lanelets[i]["pred"].append(parent)
+    out = []
+    for i in ids:
+        d = lanelets[i]
+        r.shuffle(d["succ"])
+        out.append({"id": i, "pred": d["pred"], "succ": d["succ"], "decor": gen_decor(r, 0.4),
+                    **{k: [[rat(x), rat(y)] for x, y in d[k]] for k in ("left", "center", "right")}})
+        out[-1]["decor"].pop("reid", None)
+    total = sum((sum(seglens_exact(lanelets[i]["center"])[0], Fraction(0)) for i in ids), Fraction(0))
+    queries = []
+    for st in r.sample(ids, min(len(ids), 3)):
+        for mx in r.sample([Fraction(150), Fraction(2 ** 40), Fraction(0), Fraction(r.randint(1, 40), 2), total], 2):
+            queries.append({"start": st, "max": rat(mx), "type": "default" if mx == 150 and r.random() < 0.6 else "float"})
+    return {"kind": "mergechain", "shape": shape, "lanelets": out, "queries": queries, "via": r.choice(NET_VIAS[:4])}
+
+
+def run_mergechain(ctx, case):
+    from commonroad.scenario.lanelet import Lanelet, LaneletNetwork
+    ctx.tag("mergechain")
+    ctx.tag("mergechain/" + case["shape"])
+    ctx.case(case)
+    lds = {d["id"]: d for d in case["lanelets"]}
+    strip = lambda l: {k: l[k] for k in ("id", "pred", "succ", "left", "center", "right")}  # noqa: E731
+    lans = [lanelet_of(d) for d in case["lanelets"]]
+    via = case.get("via", "add_lanelet")
+    if via in ("add_lanelet", "add_lanelet_rtree"):
+        net = LaneletNetwork()
+        for la in lans:
+            net.add_lanelet(la, rtree=(via == "add_lanelet_rtree"))
+    else:
+        net = LaneletNetwork.create_from_lanelet_list(lans, cleanup_ids=(via == "from_list_cleanup"))
+    nodes = read_graph(net)
+    for nd in nodes:      # the link lists as the network holds them now (cleanup_ids re-orders them)
+        lds[nd["id"]] = dict(lds[nd["id"]], succ=nd["succ"], pred=nd["pred"])
+    partlen = {d["id"]: float(net.find_lanelet_by_id(d["id"]).distance[-1]) for d in case["lanelets"]}
+    for q in case["queries"]:
+        st, mx = q["start"], F(q["max"])
+        start_lan = net.find_lanelet_by_id(st)
+        routes = ctx.driver.ask("C20", "routes", {"net": nodes, "queries": [{"start": st, "max": q["max"]}]})[0]
+        for which, fn, rt in (("successors", Lanelet.all_lanelets_by_merging_successors_from_lanelet, routes[0]),
+                              ("predecessors", Lanelet.all_lanelets_by_merging_predecessors_from_lanelet, routes[1])):
+            sub = {"kind": "mergechain", "shape": case["shape"], "lanelets": case["lanelets"], "queries": [q], "via": via}
+            key = f"C20/all_lanelets_by_merging_{which}_from_lanelet"
+            if q.get("type") == "default" and mx == 150:
+                ctx.tag("mergechain/range-default-arg")
+                res = call(fn, start_lan, net)
+            else:
+                res = call(fn, start_lan, net, float(mx))
+            nbrs = lds[st]["succ"] if which == "successors" else lds[st]["pred"]
+            want_jobs = [[st] + p for p in rt["ok"]] if nbrs else [[st]]
+            if res[0] == "err":
+                # merge_lanelets identifies lanelets by id and names the merged lanelet int(str(id1) + str(id2)): when that number
+                # is the id of another lanelet of the job the links are misread.  The model predicts exactly this; the property
+                # sentence (two lanelets in successor relation) does not cover it: compared, not judged.
+                mods = [ctx.driver.ask("C20", "merge_chain", {"lanelets": [strip(lds[i]) for i in job]}) for job in want_jobs]
+                if any(isinstance(mo, dict) and mo.get("err") == res[1] for mo in mods):
+                    ctx.tag("mergechain/merged-id-collides")
+                    ctx.excluded += 1
+                    ctx.compare(case, {"err": res[1]}, {"err": res[1]}, f"all_lanelets_by_merging_{which}_from_lanelet raises as CR.Arc.mergeChain predicts")
+                else:
+                    ctx.fail(f"{key}/raises-{res[1]}", f"start {st}, max_length {float(mx)}: {res[2]}", sub)
+                continue
+            merged, jobs = res[1]
+            jobs = [[int(v) for v in j] for j in jobs]
+            ctx.compare(case, jobs, want_jobs, f"merge jobs of all_lanelets_by_merging_{which}_from_lanelet vs [start] + model routes")
+            if len(merged) != len(jobs):
+                ctx.fail(f"{key}/merged-count", f"{len(merged)} merged lanelets for {len(jobs)} merge jobs", sub)
+                continue
+            for m, job in zip(merged, jobs):
+                if len(job) >= 3:
+                    ctx.tag("mergechain/chain>=3")
+                model = ctx.driver.ask("C20", "merge_chain", {"lanelets": [strip(lds[i]) for i in job]})
+                ctx.compare(case, {"ok": canon_lanelet(m)}, model, f"merged lanelet of job {job} vs CR.Arc.mergeChain")
+                # oracle: boundaries are the concatenation of the parts in travel direction, every joint kept once; length = sum
+                order = job if which == "successors" else list(reversed(job))
+                mids, acc, collide = set(lds), lds[job[0]]["id"], False
+                for i in job[1:-1]:
+                    acc = int(str(acc) + str(i)) if which == "successors" else int(str(i) + str(acc))
+                    collide = collide or acc in mids or any(acc in lds[j]["succ"] + lds[j]["pred"] for j in lds)
+                if collide:
+                    ctx.tag("mergechain/merged-id-collides")
+                    ctx.excluded += 1      # see above: an intermediate merged id equals the id of a real lanelet
+                    continue
+                if which == "predecessors" and any(x in lds[st]["succ"] for x in job[1:]):
+                    ctx.excluded += 1   # a predecessor that is also a successor of the start (closed ring): merge_lanelets
+                    continue            # appends it behind the start; which end it belongs to is not fixed by the property
+                if any(lds[a][k][-1] != lds[b][k][0] for a, b in zip(order, order[1:]) for k in ("left", "center", "right")):
+                    continue      # (not generated) a part that does not start where the previous one ends
+                for k, arr in (("left", m.left_vertices), ("center", m.center_vertices), ("right", m.right_vertices)):
+                    want = list(lds[order[0]][k])
+                    for i in order[1:]:
+                        want += lds[i][k][1:]
+                    if pts_rat(arr) != [[rat(F(x)), rat(F(y))] for x, y in want]:
+                        ctx.fail(f"{key}/{k}-not-concatenation",
+                                 f"job {job}: {k} boundary has {len(arr)} vertices, the concatenation of the parts (joints once) has {len(want)}"
+                                 if len(arr) != len(want) else f"job {job}: {k} boundary differs from the concatenation of the parts", sub)
+                        break
+                else:
+                    lm, ls = float(m.distance[-1]), sum(partlen[i] for i in job)
+                    if abs(lm - ls) > TOL * (1 + abs(ls)):
+                        ctx.fail(f"{key}/length-not-sum", f"job {job}: merged length {lm}, parts sum to {ls}", sub)
 
 
 # ------------------------------------------------------------------------------------------------ entry points
@@ -919,7 +1801,11 @@ def run_poly3(ctx, case):
 
 def run_case(ctx, case):
     k = case.get("kind")
-    if k == "poly3":
+    if k == "lanhist":
+        run_lanhist(ctx, case)
+    elif k == "mergechain":
+        run_mergechain(ctx, case)
+    elif k == "poly3":
         run_poly3(ctx, case)
     elif k == "poly":
         run_poly(ctx, case)
@@ -934,6 +1820,7 @@ def run_case(ctx, case):
 
 
 def run(ctx):
+    check_dimensions()
     for p in sorted(glob.glob(os.path.join(CORPUS_DIR, "C20", "*.json"))):
         run_case(ctx, json.load(open(p)))
     for i in range(ctx.n(1000)):
@@ -944,6 +1831,10 @@ def run(ctx):
         run_case(ctx, gen_poly3(ctx))
     for _ in range(ctx.n(300)):
         run_case(ctx, gen_merge(ctx))
+    for _ in range(ctx.n(300)):
+        run_case(ctx, gen_lanhist(ctx))
+    for _ in range(ctx.n(150)):
+        run_case(ctx, gen_mergechain(ctx))
     # exhaustive small graphs: <= 3 nodes in quick, <= 4 nodes in thorough (split over the workers)
     kmax = 4 if ctx.tier == "thorough" else 3
     j = 0
